@@ -61,7 +61,8 @@ type Case struct {
 	Link     string `json:"link,omitempty"`
 	Location string `json:"location,omitempty"`
 	// Conf: the operator's configuration the answer meets: "" = the default one (see setup); "dc" = --domains-crawl
-	// active with a domain, a URL and a regular expression (every URL the server names is matched against them)
+	// active with a domain, a URL and a regular expression (every URL the server names is matched against them);
+	// "dac" = --disable-assets-capture
 	Conf string `json:"conf,omitempty"`
 }
 
@@ -112,6 +113,7 @@ func runCase(c *Case) (o Outcome) {
 		panic("unknown profile " + c.Profile)
 	}
 	domainscrawl.Reset()
+	config.Get().DisableAssetsCapture = c.Conf == "dac" // --disable-assets-capture: the outlinks of structured documents take a road of their own
 	if c.Conf == "dc" {
 		if err := domainscrawl.AddElements([]string{"site.example", "http://other.example/dir/", `^https?://re\.example/[a-z]+$`}); err != nil {
 			panic(err)
